@@ -484,3 +484,12 @@ class BrokenHints:
     """An application dataclass whose annotation string is not an expression; it only has to be loaded."""
 
     broken_hint_field: "List[" = None  # noqa: F821
+
+
+@dataclass
+class OrderLine(metaclass=StableHashMeta):
+    """No names in the metadata: the element and attribute names come from the context's name generators."""
+
+    line_no: Optional[int] = field(default=None, metadata={"type": "Attribute"})
+    unit_price: Optional[Decimal] = field(default=None, metadata={"type": "Element"})
+    order_items: list[str] = field(default_factory=list, metadata={"type": "Element"})
